@@ -94,6 +94,106 @@ func pair(transport, dir string, n int) (varlink.ReadWriterContext, net.Conn, fu
 	return nil, nil, nil, fmt.Errorf("unknown transport")
 }
 
+// rawPair: a connected pair of plain net.Conns over the given transport
+func rawPair(transport, dir string, n int) (net.Conn, net.Conn, func(), error) {
+	if transport == "pipe" {
+		a, b := net.Pipe()
+		return a, b, func() { a.Close(); b.Close() }, nil
+	}
+	var l net.Listener
+	var err error
+	path := fmt.Sprintf("%s/y%d", dir, n)
+	if transport == "tcp" {
+		l, err = net.Listen("tcp", "127.0.0.1:0")
+	} else {
+		l, err = net.Listen("unix", path)
+	}
+	if err != nil {
+		return nil, nil, nil, err
+	}
+	acc := make(chan net.Conn, 1)
+	go func() {
+		if c, err := l.Accept(); err == nil {
+			acc <- c
+		}
+	}()
+	var c net.Conn
+	if transport == "tcp" {
+		c, err = net.Dial("tcp", l.Addr().String())
+	} else {
+		c, err = net.Dial("unix", path)
+	}
+	if err != nil {
+		l.Close()
+		return nil, nil, nil, err
+	}
+	peer := <-acc
+	return c, peer, func() { peer.Close(); c.Close(); l.Close() }, nil
+}
+
+// clientCase: Connection.Send and the receive function it returns are given DIFFERENT contexts.
+//   sendctx: Send's context is done before receive is called with a live one: receive must deliver the reply
+//   recvctx: Send's context stays live, receive's is cancelled / expires while the service is silent: receive must return promptly
+func clientCase(dir string, n int, transport, kind, which string) string {
+	c, peer, cleanup, err := rawPair(transport, dir, n)
+	if err != nil {
+		return "X setup " + err.Error()
+	}
+	defer cleanup()
+	conn := varlink.VerifNewConnection(c)
+	time.Sleep(5 * time.Millisecond)
+	base := runtime.NumGoroutine()
+	silent := 30 * time.Millisecond
+	if which == "recvctx" {
+		silent = 3 * time.Second
+	}
+	go func() {
+		bufio.NewReader(peer).ReadBytes(0)
+		time.Sleep(silent)
+		peer.Write([]byte("{\"parameters\":{\"x\":1}}\x00"))
+	}()
+	sctx, scancel := context.WithCancel(context.Background())
+	defer scancel()
+	recv, err := conn.Send(sctx, "a.b.M", nil, 0)
+	if err != nil {
+		return "X send " + err.Error()
+	}
+	var rctx context.Context
+	var rcancel context.CancelFunc
+	if which == "sendctx" {
+		scancel()
+		rctx, rcancel = context.WithCancel(context.Background())
+		t := time.AfterFunc(3*time.Second, rcancel)
+		defer t.Stop()
+	} else if kind == "cancel" {
+		rctx, rcancel = context.WithCancel(context.Background())
+		go func() { time.Sleep(60 * time.Millisecond); rcancel() }()
+	} else {
+		rctx, rcancel = context.WithTimeout(context.Background(), 60*time.Millisecond)
+	}
+	defer rcancel()
+	start := time.Now()
+	var out map[string]int
+	_, opErr := recv(rctx, &out)
+	el := time.Since(start)
+	class := classify(opErr)
+	if opErr == nil && out["x"] != 1 {
+		class = "other:wrong-data"
+	}
+	speed := "fast"
+	if el > time.Second {
+		speed = fmt.Sprintf("slow:%dms", el.Milliseconds())
+	}
+	rcancel()
+	scancel()
+	time.Sleep(30 * time.Millisecond)
+	leak := runtime.NumGoroutine() - base - 1 // the peer goroutine of this scenario may still be sleeping
+	if leak < 0 {
+		leak = 0
+	}
+	return fmt.Sprintf("class=%s speed=%s leak=%d follow=ok", class, speed, leak)
+}
+
 func runCase(dir string, n int, line string) (res string) {
 	defer func() {
 		if r := recover(); r != nil {
@@ -102,6 +202,9 @@ func runCase(dir string, n int, line string) (res string) {
 	}()
 	f := strings.Fields(line)
 	transport, op, kind, instant := f[0], f[1], f[2], f[3]
+	if op == "clientrecv" {
+		return clientCase(dir, n, transport, kind, instant)
+	}
 	rw, peer, cleanup, err := pair(transport, dir, n)
 	if err != nil {
 		return "X setup " + err.Error()
